@@ -39,6 +39,26 @@ def lifecycle(rec):
     if end == "timeout":
         kw["timeout"] = 0.2
     make = ProcessPoolExecutor if pool == "plain" else get_reusable_executor
+    if load == "spawnfail":
+        # the workers cannot be spawned: their initargs do not pickle, the first submit() raises
+        import threading
+        e = make(initializer=print, initargs=(threading.Lock(),), **kw)
+        try:
+            e.submit(t_ok, 1)
+            raise AssertionError("submit() did not raise although no worker can be spawned")
+        except TypeError:
+            pass
+        if end == "wait":
+            e.shutdown(wait=True)
+        elif end == "ctx":
+            with e:
+                pass
+        elif end == "nowait":
+            e.shutdown(wait=False)
+        else:
+            e.shutdown(wait=True, kill_workers=True)
+        e = None
+        return
     e = make(**kw)
     arg = (b"a" * BIG) if load == "bigarg" else None
     e.submit(t_ok, 1).result(60)                       # the workers exist
@@ -169,7 +189,7 @@ def measure():
 
 
 def one(hist, outp, reps):
-    signal.alarm(900)
+    signal.alarm(400)
     for k in hist:
         lifecycle(k)
     m1 = measure()
@@ -195,7 +215,7 @@ def main():
         p = subprocess.Popen([sys.executable, "-m", "engine.real.lifecycle_real", "--one", json.dumps(h["hist"]), of, str(reps)],
                              stdout=subprocess.DEVNULL, stderr=open(outp + ".%d.err" % i, "w"), start_new_session=True)
         try:
-            p.wait(timeout=1000)
+            p.wait(timeout=420)
         except subprocess.TimeoutExpired:
             pass
         try:
